@@ -6,6 +6,7 @@ package main
 
 import (
 	"fmt"
+	"math"
 	"sort"
 	"strings"
 
@@ -28,6 +29,7 @@ var utInfos = []utInfo{
 	{ifs: []int{0, 2}, runner: true}, {ifs: []int{0}, runner: true, closer: true}, {ifs: []int{3}, f0: true, f1: true},
 	{ifs: []int{3}, qual: true, f1: true, f2: true}, {ifs: []int{0, 3}, lazy: true, f0: true}, {closer: true},
 	{ifs: []int{0}, pp: true}, {ifs: []int{2}, lazy: true, runner: true}, {ifs: []int{0, 1}, f1: true}, {ifs: []int{1}, qual: true},
+	{ifs: []int{0, 1}, pp: true}, {ifs: []int{1}, pp: true},
 }
 
 var namePool = []string{"a", "b", "c", "d", "e", "f", "ga", "gz", "h", "k", "la", "lz", "m", "n", "p", "q", "s", "t", "u", "w", "x", "y", "za", "zz"}
@@ -67,7 +69,7 @@ func (g *gBuilder) addNode(ty int, wantUnnamed bool) int {
 	if utInfos[ty].f1 {
 		n.r = []string{"x", "y", "z"}[g.r.Intn(3)]
 	}
-	n.ord = []int{-2, 0, 0, 1, 5}[g.r.Intn(5)]
+	n.ord = []int{-2, 0, 0, 1, 5, math.MinInt64, math.MaxInt64}[g.r.Intn(7)]
 	g.sc.nodes = append(g.sc.nodes, n)
 	return len(g.sc.nodes) - 1
 }
@@ -83,8 +85,8 @@ func (g *gBuilder) nameOf(i int) string {
 func (g *gBuilder) randType(pred func(utInfo) bool) int {
 	for tries := 0; tries < 200; tries++ {
 		t := g.r.Intn(universeTypeCount)
-		if t == 14 {
-			continue // the priority post-processor type is only added on purpose
+		if t == 14 || t == 19 {
+			continue // the priority post-processor types are only added on purpose (at most one per scenario)
 		}
 		if pred == nil || pred(utInfos[t]) {
 			return t
@@ -396,16 +398,28 @@ func genDiamond(r *hx.Rng) *gScen {
 // the priority-ordered user post-processor with an injection point (finding D8)
 func genD8(r *hx.Rng) *gScen {
 	g := newBuilder(r)
-	p := g.addNode(14, r.P(1, 2))
+	ppType := 14
+	if r.P(1, 3) {
+		ppType = 19
+	}
+	p := g.addNode(ppType, r.P(1, 2))
 	d := g.addNode(0, true)
 	_ = d
 	g.sc.nodes[p].slots["P0"] = "w"
 	if r.P(1, 2) {
 		g.sc.nodes[p].slots["P0"] = "w,required=false"
 	}
+	if r.P(1, 2) {
+		q := g.addNode(18, r.P(1, 2))
+		g.sc.nodes[q].slots["P0"] = "w"
+		g.randomSlots(q, r.Intn(2))
+	}
 	for i := 0; i < r.Intn(3); i++ {
 		x := g.addNode(g.randType(nil), r.P(1, 3))
 		g.randomSlots(x, r.Intn(3))
+	}
+	if r.P(1, 4) {
+		g.sprinkle()
 	}
 	return g.sc
 }
